@@ -22,7 +22,7 @@ ModelA(flag) == [
                     !.hasSteady = TRUE, !.slhs = V("x_n", 0), !.srhs = N(1)],
                Eqn("", V("k", 0), <<"sub", <<"add", <<"add", Mac("diff_log", V("y", 0), Dflt), Mac("mov_avg", V("x_n", 1), CNeg2)>>,
                                                   <<"pow", V("y", 0), N(2)>> >>, <<"pow", P("b"), N(2)>> >>, <<>>, <<>>),
-               EqF("Third", V("y", 0), <<"add", Mac("pct", V("k", 0), CNeg2), IF flag THEN N(1) ELSE N(2)>>, "if"),
+               EqF("Third & 'last'", V("y", 0), <<"add", Mac("pct", V("k", 0), CNeg2), IF flag THEN N(1) ELSE N(2)>>, "if"),
                EqF("", V("ca", 0), <<"add", <<"mul", P("a"), V("x_n", 0)>>, N(1)>>, "for"),
                EqF("", V("cb", 0), <<"add", <<"mul", P("b"), V("x_n", 0)>>, N(1)>>, "for") >>,
     meq |-> << Eqn("", V("o", 0), <<"add", V("x_n", 0), V("k", 1)>>, <<>>, <<>>) >> ]
@@ -99,7 +99,8 @@ EqLines(q, ch, i) ==
     ELSE IF q.fac = "if" /\ ch.fac = "forctx" /\ q.rhs[3][1] = "num"
     THEN << "    " \o Quote(q.desc) \o TText(q.lhs, ch) \o EqSign(ch) \o "(" \o TText(q.rhs[2], ch) \o "+<cst>);" \o Cmt(ch, i) >>
     ELSE IF q.fac = "if" /\ UseIf(ch)
-    THEN << "    " \o Quote(q.desc) \o TText(q.lhs, ch) \o EqSign(ch) \o "(" \o TText(q.rhs[2], ch) \o "+",
+    \* (with everything factored the description comes from the context, through a Jinja expression)
+    THEN << "    " \o (IF ch.fac = "all" /\ q.desc # "" THEN "\"{{ third }}\" " ELSE Quote(q.desc)) \o TText(q.lhs, ch) \o EqSign(ch) \o "(" \o TText(q.rhs[2], ch) \o "+",
             \* (with everything factored, an !if without !else precedes its sibling with !else)
             "        " \o (IF ch.fac = "all" THEN "!if True !then 0+ !end " ELSE "")
             \o "!if flag !then " \o TText(IF q.rhs[3] = N(2) THEN N(1) ELSE q.rhs[3], ch) \o " !else " \o (IF q.rhs[3] = N(2) THEN "2" ELSE "7") \o " !end );" >>
@@ -118,12 +119,15 @@ EqBlock(qs, ch, i) ==
                \o EqBlock(qs, ch, i + 2)
           ELSE EqBlock(qs, ch, i + 1))
     ELSE EqLines(qs[i], ch, i) \o EqBlock(qs, ch, i + 1)
+\* the order in which the parameters are declared is theirs in the model: reversed when the text is blank-padded (the equations, and
+\* their text, stay the same while every parameter gets another position)
+PaDecl(m, ch) == IF ch.sp = " " THEN [i \in 1..Len(m.pa) |-> m.pa[Len(m.pa) + 1 - i]] ELSE m.pa
 Render(m, ch) ==
        (IF ch.cm = 2 THEN << "%{ a block comment #{ wrapping one of the other style #}", "   !variables zz  x_n = 1;", "%}" >> ELSE <<>>)
     \o << Kw("transition_variables", ch) \o Cmt(ch, 1) >> \o TvLines(m, ch)
     \o LogLines(m, ch)
     \o << Kw("transition_shocks", ch) >> \o NameLines(m.sh, ch)
-    \o << Kw("parameters", ch) >> \o NameLines(m.pa, ch)
+    \o << Kw("parameters", ch) >> \o NameLines(PaDecl(m, ch), ch)
     \o (IF UseSubst(ch) THEN << Kw("substitutions", ch), "    s " \o EqSign(ch) \o " " \o TText(m.teq[1].rhs[2], ch) \o ";" >> ELSE <<>>)
     \o << Kw("transition_equations", ch) >>
     \o (IF ch.cm = 2 THEN << "#{ disabled: %{ an older remark %}", "    x_n = 0.5*k + 1;", "#}" >> ELSE <<>>)
@@ -153,7 +157,7 @@ Pick == /\ ~done /\ "ch" \notin DOMAIN sc /\ UNCHANGED <<out, done>>
         /\ \E c \in Choices : c.kw = sc.kw /\ c.fac = sc.fac /\ ChoiceIdx(c) % QuickMod = QuickSel /\ (sc.mid = "D" => (c.cm = 0 /\ c.sep = "comma" /\ c.logstyle = "list")) /\ sc' = [mid |-> sc.mid, kw |-> sc.kw, fac |-> sc.fac, ch |-> c]
 Compute == /\ ~done /\ "ch" \in DOMAIN sc /\ done' = TRUE /\ UNCHANGED sc
            /\ \E m \in {Models[sc.mid]} :
-                out' = [text |-> Render(m, sc.ch),
+                out' = [text |-> Render(m, sc.ch), paorder |-> [i \in 1..Len(m.pa) |-> PaDecl(m, sc.ch)[i][1]],
                         expanded |-> \A i \in 1..(Len(m.teq) + Len(m.meq)) :
                                         LET q == IF i <= Len(m.teq) THEN m.teq[i] ELSE m.meq[i - Len(m.teq)] IN ~HasMac(Expand(q.rhs)) /\ ~HasMac(Expand(q.lhs))]
 \* the meanings of the base models, in a run of their own
